@@ -27,6 +27,19 @@ KF_DISMAX = ("TopDocs::order_by_score on a top-level DisjunctionMaxQuery of term
              "disjuncts (block-WAND ignores the DisjunctionMaxCombiner); a scoring collector gives max + tie_breaker * rest")
 
 
+KF_NOFIELDNORM = ("TopDocs by score on a field indexed WithFreqs without fieldnorms: the postings serializer writes block-WAND "
+                  "parameters (0,0) for full blocks, so their block-max score is 0 and block-WAND / the pruning term scorer skips "
+                  "blocks that hold better documents")
+
+
+def uses_field(q, f):
+    if isinstance(q, dict):
+        return q.get("f") == f or any(uses_field(v, f) for v in q.values())
+    if isinstance(q, list):
+        return any(uses_field(v, f) for v in q)
+    return False
+
+
 def is_toplevel_term_dismax(q):
     if q.get("k") == "dismax":
         qs = q.get("qs", [])
@@ -46,6 +59,8 @@ def classify(diag, ev):
         return "C06: " + why
     q = diag.get("q", {})
     key = diag.get("key", {})
+    if uses_field(q, "nf") and key.get("kind") in ("score", "tweak_mul", "pair"):
+        return "C06 top-K: " + KF_NOFIELDNORM
     if is_toplevel_term_dismax(q) and key.get("kind") in ("score", "tweak_mul", "pair"):
         return "C06 top-K: " + KF_DISMAX
     return (f"C06 top-K: TopDocs(limit, offset) ordered by {key.get('kind')} ({'/'.join(diag.get('cmp', []))}) is not entries "
@@ -227,6 +242,22 @@ def known_finding_runs(ctx):
     seen = []
     validate(ctx, vlib.read_ndjson(tp), "kf", expect=seen)
     ctx.cov["repaired_findings_regressed"] = {"dismax_sum": any(KF_DISMAX in s for s in seen)}
+    # recorded finding: no fieldnorms + frequencies (field `nf` = the title tokens, never used by the default generator)
+    n = lambda x: {"k": "term", "f": "nf", "t": x, "opt": "freq"}
+    bq = lambda cl: {"k": "bool", "cl": cl, "msm": 1 if all(c["o"] == "should" for c in cl) else 0, "explicit": False}
+    key = {"kind": "score", "cmp": ["natural"]}
+    cases = [{"q": n("t0"), "key": key, "plan": [[1, 0], [5, 0], [10, 3]]},
+             {"q": bq([{"o": "should", "q": n("t0")}, {"o": "should", "q": n("t1")}]), "key": key, "plan": [[1, 0], [5, 0]]},
+             {"q": bq([{"o": "must", "q": n("t0")}, {"o": "must", "q": n("all")}]), "key": key, "plan": [[1, 0], [5, 0]]}]
+    cp = ctx.path("kf_nf_cases.ndjson")
+    vlib.write_ndjson(cp, cases)
+    tp = ctx.path("kf_nf_trace.ndjson")
+    vlib.run_bin("topk_driver", ["search", "--seed", 1, "--docs", 3000, "--segments", 1, "--fixed", cp, "--out", tp], timeout=300)
+    seen2 = []
+    before = ctx.cov["traces_validated_against_impl"]
+    validate(ctx, vlib.read_ndjson(tp), "kf_nf", expect=seen2)
+    ctx.cov["traces_validated_against_impl"] = before
+    ctx.cov["recorded_findings_reproduced"] = {"no_fieldnorms_block_max_zero": any(KF_NOFIELDNORM in s for s in seen2)}
 
 
 def binding_selftest(ctx, topn_events, search_events):
